@@ -252,3 +252,63 @@ ben("benign_sections_parsed_in_sorted_header_order", [
      '''        for header_tag, data_section_lines in sorted(data_sections.items(), key=lambda kv: kv[0]):
             if header_tag in instrument_track_name_to_instrument_difficulty_pair:'''),
 ], "instrument sections are parsed (and stored) in sorted header order instead of file order")
+
+ben("benign_tracks_built_on_a_thread_pool_stored_in_file_order", [
+    ("chartparse/chart.py",
+     '''        instrument_tracks = InstrumentTrackMap(collections.defaultdict(dict))
+        for header_tag, data_section_lines in data_sections.items():''',
+     '''        import concurrent.futures
+
+        instrument_tracks = InstrumentTrackMap(collections.defaultdict(dict))
+        pending = []
+        pool = concurrent.futures.ThreadPoolExecutor(max_workers=3, thread_name_prefix="chartparse-track")
+        for header_tag, data_section_lines in data_sections.items():'''),
+    ("chartparse/chart.py",
+     '''                track = InstrumentTrack.from_chart_lines(
+                    instrument,
+                    difficulty,
+                    data_section_lines,
+                    sync_track.bpm_events,
+                )
+                instrument_tracks[instrument][difficulty] = track
+            elif header_tag not in cls._required_header_tags:
+                logger.warning(cls._unhandled_data_section_log_msg_tmpl.format(header_tag))
+''',
+     '''                pending.append((instrument, difficulty, pool.submit(
+                    InstrumentTrack.from_chart_lines,
+                    instrument,
+                    difficulty,
+                    list(data_section_lines),
+                    sync_track.bpm_events,
+                )))
+            elif header_tag not in cls._required_header_tags:
+                logger.warning(cls._unhandled_data_section_log_msg_tmpl.format(header_tag))
+        try:
+            for instrument, difficulty, future in pending:
+                instrument_tracks[instrument][difficulty] = future.result()
+        finally:
+            pool.shutdown(wait=True)
+'''),
+], "instrument tracks are built by a thread pool inside the library and stored in file order: "
+   "threads the library makes itself are scheduled by the simulator and must not cause an alarm")
+
+ben("benign_condition_guarded_count_of_running_parses", [
+    ("chartparse/chart.py",
+     '''        lines = fp.read().splitlines()''',
+     '''        with _running_cond:
+            _running[0] += 1
+        try:
+            lines = fp.read().splitlines()
+        finally:
+            with _running_cond:
+                _running[0] -= 1
+                _running_cond.notify_all()'''),
+    ("chartparse/chart.py",
+     '''logger = logging.getLogger(__name__)''',
+     '''logger = logging.getLogger(__name__)
+
+import threading as _threading  # noqa: E402
+
+_running_cond = _threading.Condition()
+_running = [0]'''),
+], "a condition variable guards a count of parses in flight (a lock held across pre-emption points)")
